@@ -684,3 +684,33 @@ impl Assembler {
         (self.buffered, self.allocated)
     }
 }
+
+/// The stream reassembly buffer on its own, for an external verification harness
+#[cfg(feature = "verif-hooks")]
+#[derive(Debug, Default)]
+pub struct VerifAssembler(Assembler);
+
+#[cfg(feature = "verif-hooks")]
+impl VerifAssembler {
+    pub fn new() -> Self {
+        Self(Assembler::new())
+    }
+    /// `false` if the buffer refused the chunk (too many chunks)
+    pub fn insert(&mut self, offset: u64, bytes: Bytes, allocation_size: usize) -> bool {
+        self.0.insert(offset, bytes, allocation_size).is_ok()
+    }
+    /// `false` for an ordered read after an unordered one
+    pub fn ensure_ordering(&mut self, ordered: bool) -> bool {
+        self.0.ensure_ordering(ordered).is_ok()
+    }
+    pub fn read(&mut self, max_length: usize, ordered: bool) -> Option<Chunk> {
+        self.0.read(max_length, ordered)
+    }
+    pub fn bytes_read(&self) -> u64 {
+        self.0.bytes_read()
+    }
+    /// (buffered, allocated)
+    pub fn buffered(&self) -> (usize, usize) {
+        self.0.verif_buffered()
+    }
+}
